@@ -41,7 +41,7 @@ REPO = os.environ.get("VERIF_REPO", "/repo")
 VERIF = os.path.dirname(os.path.dirname(os.path.abspath(__file__)))
 CACHE = os.environ.get("VERIF_CACHE", os.path.join(VERIF, ".cache"))
 STUBS = os.path.join(VERIF, "stubs")
-FRONTEND_VERSION = "cxx-16"
+FRONTEND_VERSION = "cxx-17"
 
 CLANG = "clang++"
 
@@ -368,6 +368,29 @@ def src_template_args(n):
     return clean_type(re.sub(r"\s+", " ", text[i + 1:j]).strip())
 
 
+def src_text(n):
+    """normalised source text of node n's range (whitespace and std:: removed)"""
+    f = n.get("_f")
+    rg = n.get("range") or {}
+    b, e = rg.get("begin") or {}, rg.get("end") or {}
+    if "expansionLoc" in b:
+        b = b["expansionLoc"]
+    if "expansionLoc" in e:
+        e = e["expansionLoc"]
+    boff, eoff, tl = b.get("offset"), e.get("offset"), e.get("tokLen")
+    if f is None or boff is None or eoff is None:
+        return None
+    p = f if os.path.isabs(f) else os.path.join(REPO, f)
+    if p not in _srcs:
+        try:
+            with open(p, "rb") as fh:
+                _srcs[p] = fh.read()
+        except OSError:
+            _srcs[p] = b""
+    text = _srcs[p][boff:eoff + (tl or 1)].decode("utf-8", "replace")
+    return re.sub(r"\s+", "", text).replace("std::", "")
+
+
 class Lower:
     def __init__(self, index):
         self.ix = index
@@ -624,6 +647,9 @@ class Lower:
         if k == "UnresolvedLookupExpr":
             return ("fn", n.get("name", "?"))
         if k == "DependentScopeDeclRefExpr":
+            t = src_text(n)
+            if t and "::" in t and re.match(r"^[\w:<>,*&]+$", t):
+                return ("trait", t)   # e.g. is_same<T,int32_t>::value
             return ("var", "?dep")
         if k == "ArraySubscriptExpr":
             return ("idx", self.expr(inner[0]), self.expr(inner[1]))
@@ -722,6 +748,11 @@ class Lower:
             if len(a) == 1:
                 return ("un", op, a[0])
             return ("call", ("fn", opname), a, line)
+        if k in ("CXXDependentScopeMemberExpr", "DependentScopeDeclRefExpr") and not inner:
+            # a dependent qualified name such as std::is_same<T, int32_t>::value: keep its (normalised) spelling
+            t = src_text(n)
+            if t and "::" in t and re.match(r"^[\w:<>,*&]+$", t):
+                return ("trait", t)
         if k in ("MemberExpr", "CXXDependentScopeMemberExpr", "UnresolvedMemberExpr"):
             base = self.expr(inner[0]) if inner else ("this",)
             return ("member", base, n.get("name") or n.get("member") or src_token(n))
